@@ -133,3 +133,23 @@ Proof.
   destruct (str_eqb (ri_method r2) (ri_method r1)) eqn:E; [|reflexivity].
   apply str_eqb_eq in E. congruence.
 Qed.
+
+(* ---- the body flag is decided by the effective verb alone ----------------------------------------
+   rpc_info does not even mention the request message's fields: whatever is left for the body once the
+   URL has taken its share (nothing for an empty or fully path-bound request, one field, only
+   query-annotated fields), each of the five generators treats POST/PUT/PATCH (and the defaulted verb) as
+   body-carrying and GET/DELETE as bodiless. *)
+Lemma body_by_verb : forall r : rpc_info,
+  rt_body (go_server r) = verb_has_body (eff_verb r) /\
+  rt_body (go_client r) = verb_has_body (eff_verb r) /\
+  rt_body (ts_client r) = verb_has_body (eff_verb r) /\
+  rt_body (ts_server r) = verb_has_body (eff_verb r) /\
+  rt_body (openapi r) = verb_has_body (eff_verb r).
+Proof. intro r. repeat split; reflexivity. Qed.
+
+(* two RPCs with the same effective verb get the same body flag from every generator, whatever their
+   templates, path variables and query fields are *)
+Lemma body_same_verb : forall r1 r2 : rpc_info, eff_verb r1 = eff_verb r2 ->
+  rt_body (go_client r1) = rt_body (go_server r2) /\ rt_body (go_client r1) = rt_body (openapi r2) /\
+  rt_body (go_client r1) = rt_body (ts_server r2) /\ rt_body (go_client r1) = rt_body (ts_client r2).
+Proof. intros r1 r2 H. unfold go_client, ts_client, ts_server, client_route, go_server, openapi; simpl. rewrite H. repeat split; reflexivity. Qed.
